@@ -104,9 +104,9 @@ type item struct {
 	desc  string
 	// containers:
 	nnamed     int
-	namedOrder []string          // key canons in insertion order
-	hashNums   map[string]bool   // hash relevant position -> "is a SuDnum" for integers outside int16
-	keyNums    map[string]bool   // path of a named key (any depth) -> "is a SuDnum" for integers outside int16
+	namedOrder []string        // key canons in insertion order
+	hashNums   map[string]bool // hash relevant position -> "is a SuDnum" for integers outside int16
+	keyNums    map[string]bool // path of a named key (any depth) -> "is a SuDnum" for integers outside int16
 	isRec      bool
 }
 
@@ -419,8 +419,8 @@ func genPool(t *rapid.T) ([]emodel, string) {
 // --- known finding predicates -----------------------------------------------------
 
 const (
-	kfHashDnum  = "dnum-int-hash"         // F3
-	kfHashOrder = "object-hash-order"     // Hash of 2..4 named members depends on insertion order
+	kfHashDnum  = "dnum-int-hash"     // F3
+	kfHashOrder = "object-hash-order" // Hash of 2..4 named members depends on insertion order
 	kfLossy28   = "int64-dnum-lossy-compare"
 )
 
